@@ -179,7 +179,7 @@ Proof.
     assert (R : orel (at_location c1 ts f1) (at_location c2 ts f2)).
     { apply IH; [eapply dwf_child; [exact H1 | eapply find_key_in; exact F1] | eapply dwf_child; [exact H2 | eapply find_key_in; exact F2] | exact F]. }
     destruct (at_location c1 ts f1) as [c1'|] eqn:A1; destruct (at_location c2 ts f2) as [c2'|] eqn:A2; try contradiction; [|exact I].
-    cbn [orel]. apply same_with_children; [exact S | intro; discriminate |]. intros _.
+    cbn [orel]. apply same_with_children; [exact S | intro; congruence |]. intros _.
     assert (Hob : is_object d2 = true) by (rewrite <- (same_is_object _ _ S); exact Eo).
     eapply osame_upd; try eassumption.
     + apply dwf_okm; assumption.
@@ -232,13 +232,13 @@ Proof.
     pose proof (same_find_key c1 c2 t H1 H2 S Eo) as F.
     destruct (find_key (n_children c1) t 0%nat) as [[j1 x1]|] eqn:F1; destruct (find_key (n_children c2) t 0%nat) as [[j2 x2]|] eqn:F2;
       try contradiction.
-    + cbn [orel]. apply same_with_children; [exact S | intro; discriminate|]. intros _.
+    + cbn [orel]. apply same_with_children; [exact S | intro; congruence|]. intros _.
       eapply osame_upd; try eassumption; try apply with_key_key.
       * apply dwf_okm; assumption.
       * apply dwf_okm; assumption.
       * apply same_object_children; assumption.
       * apply msame_with_key. exact Sv.
-    + cbn [orel]. apply same_with_children; [exact S | intro; discriminate|]. intros _.
+    + cbn [orel]. apply same_with_children; [exact S | intro; congruence|]. intros _.
       apply osame_snoc; [apply same_object_children; assumption | apply msame_with_key; exact Sv].
 Qed.
 
@@ -254,7 +254,7 @@ Proof.
     pose proof (same_find_key c1 c2 t H1 H2 S Eo) as F.
     destruct (find_key (n_children c1) t 0%nat) as [[j1 x1]|] eqn:F1; destruct (find_key (n_children c2) t 0%nat) as [[j2 x2]|] eqn:F2;
       try contradiction; [|exact I].
-    cbn [orel]. apply same_with_children; [exact S | intro; discriminate|]. intros _.
+    cbn [orel]. apply same_with_children; [exact S | intro; congruence|]. intros _.
     eapply osame_del; try eassumption; [apply dwf_okm; assumption | apply dwf_okm; assumption | apply same_object_children; assumption].
 Qed.
 
@@ -292,13 +292,13 @@ Proof.
   - unfold replace. destruct p as [|t ts]; [apply doc_same_refl|].
     pose proof (remove_same d1 d2 (t :: ts) H1 H2 S) as R.
     destruct (remove d1 (t :: ts)) as [e1|] eqn:R1; destruct (remove d2 (t :: ts)) as [e2|] eqn:R2; try contradiction; [|exact I].
-    apply add_same; [eapply remove_dwf; eassumption | eapply remove_dwf; eassumption | exact R | apply doc_same_refl].
+    apply add_same; [exact (remove_dwf _ _ _ H1 R1) | exact (remove_dwf _ _ _ H2 R2) | exact R | apply doc_same_refl].
   - destruct (proper_prefix f p); [exact I|].
     pose proof (get_same f d1 d2 H1 H2 S) as G.
     destruct (get d1 f) as [v1|] eqn:G1; destruct (get d2 f) as [v2|] eqn:G2; try contradiction; [|exact I].
     pose proof (remove_same d1 d2 f H1 H2 S) as R.
     destruct (remove d1 f) as [e1|] eqn:R1; destruct (remove d2 f) as [e2|] eqn:R2; try contradiction; [|exact I].
-    apply add_same; [eapply remove_dwf; eassumption | eapply remove_dwf; eassumption | exact R | exact G].
+    apply add_same; [exact (remove_dwf _ _ _ H1 R1) | exact (remove_dwf _ _ _ H2 R2) | exact R | exact G].
   - pose proof (get_same f d1 d2 H1 H2 S) as G.
     destruct (get d1 f) as [v1|] eqn:G1; destruct (get d2 f) as [v2|] eqn:G2; try contradiction; [|exact I].
     apply add_same; assumption.
@@ -381,9 +381,9 @@ Proof.
   rewrite at_location_resolve in E. destruct (rfc_resolve d pp) as [path|]; [|discriminate].
   destruct (subtree d path) as [par|] eqn:S; [|discriminate].
   destruct (add_member t v par) as [par'|] eqn:A; [|discriminate]. inversion E; subst e.
-  assert (Hpar : dwf par) by (eapply dwf_subtree; eassumption).
+  assert (Hpar : dwf par) by exact (dwf_subtree _ _ _ Hd S).
   eapply dwf_put; [exact Hd | exact S | | eapply add_member_keeps; exact A].
-  eapply add_member_dwf; try eassumption.
+  apply (add_member_dwf t v par par' Hpar Hv Ht A).
   pose proof (small_subtree _ _ _ Hs (subtree_put _ _ _ par' S)) as Hsp.
   destruct par' as [ty vs vi vd k cs]. apply small_arrays_unfold in Hsp. apply Hsp.
 Qed.
@@ -398,15 +398,15 @@ Definition op_toks_ok (o : op) : Prop :=
 Theorem eval1_dwf d o e : dwf d -> op_values_ok o -> op_toks_ok o -> eval1 d o = Some e -> small_arrays e -> dwf e.
 Proof.
   intros Hd Hv Ht E Hs. destruct o as [p v|p|p v|f p|f p|p v]; cbn [eval1 op_values_ok op_toks_ok] in *.
-  - eapply add_dwf; try eassumption. apply Hv.
-  - eapply remove_dwf; eassumption.
+  - exact (add_dwf d p v e Hd (proj1 Hv) Ht E Hs).
+  - exact (remove_dwf _ _ _ Hd E).
   - unfold replace in E. destruct p as [|t ts]; [inversion E; subst; apply Hv|].
     destruct (remove d (t :: ts)) as [d'|] eqn:R; [|discriminate].
-    eapply add_dwf; [eapply remove_dwf; eassumption | apply Hv | exact Ht | exact E | exact Hs].
+    exact (add_dwf d' (t :: ts) v e (remove_dwf _ _ _ Hd R) (proj1 Hv) Ht E Hs).
   - destruct (proper_prefix f p); [discriminate|]. destruct (get d f) as [v|] eqn:G; [|discriminate].
     destruct (remove d f) as [d'|] eqn:R; [|discriminate]. destruct (get_dwf_depth _ _ _ Hd G) as [Hvd _].
-    eapply add_dwf; [eapply remove_dwf; eassumption | exact Hvd | apply Ht | exact E | exact Hs].
+    exact (add_dwf d' p v e (remove_dwf _ _ _ Hd R) Hvd (proj2 Ht) E Hs).
   - destruct (get d f) as [v|] eqn:G; [|discriminate]. destruct (get_dwf_depth _ _ _ Hd G) as [Hvd _].
-    eapply add_dwf; [exact Hd | exact Hvd | apply Ht | exact E | exact Hs].
+    exact (add_dwf d p v e Hd Hvd (proj2 Ht) E Hs).
   - destruct (get d p) as [x|]; [|discriminate]. destruct (doc_eqb x v); [|discriminate]. inversion E; subst. exact Hd.
 Qed.
